@@ -111,6 +111,30 @@ M("c13-failure-idx-late", "C13", "json_patch.c",
 M("c13-benign-guard-style", "C13", "json_patch.c",
   "\t\tif (op == NULL || path == NULL) {", "\t\tif (!op || !path) {", expect="silent")
 
+# ---- C12 -------------------------------------------------------------------------------------
+M("c12-accept-empty", "C12", "json_pointer.c",
+  "\tif (len == 0)\n\t{\n\t\terrno = EINVAL;\n\t\treturn 0;\n\t}\n", "", needle="empty token")
+M("c12-accept-leading-zero", "C12", "json_pointer.c",
+  "\tif (path[0] == '0')\n\t{\n\t\terrno = EINVAL;\n\t\treturn 0;\n\t}\n", "", needle="leading zero")
+M("c12-null-not-found", "C12", "json_pointer.c",
+  "\t\tobj = json_object_array_get_idx(obj, *idx);\n\t\tif (value)\n\t\t\t*value = obj;\n\t\treturn 0;",
+  "\t\tobj = json_object_array_get_idx(obj, *idx);\n\t\tif (!obj)\n\t\t{\n\t\t\terrno = ENOENT;\n\t\t\treturn -1;\n\t\t}\n\t\tif (value)\n\t\t\t*value = obj;\n\t\treturn 0;",
+  needle="json_object_array_get_idx")
+M("c12-unescape-order", "C12", "json_pointer.c",
+  "\tstring_replace_all_occurrences_with_char(path, \"~1\", '/');\n\tstring_replace_all_occurrences_with_char(path, \"~0\", '~');",
+  "\tstring_replace_all_occurrences_with_char(path, \"~0\", '~');\n\tstring_replace_all_occurrences_with_char(path, \"~1\", '/');",
+  needle="~0")
+M("c12-write-caller-string", "C12", "json_pointer.c",
+  "\trc = json_pointer_result_get_recursive(obj, path_copy, res);\n\t/* re-map",
+  "\trc = json_pointer_result_get_recursive(obj, (char *)(uintptr_t)path, res);\n\t/* re-map", needle="caller")
+M("c12-leak-copy", "C12", "json_pointer.c",
+  "\trc = json_pointer_object_get_recursive(*obj, path_copy, &set);\n\tfree(path_copy);\n",
+  "\trc = json_pointer_object_get_recursive(*obj, path_copy, &set);\n\tif (rc == 0)\n\t\tfree(path_copy);\n", needle="strdup")
+M("c12-drop-range-check", "C12", "json_pointer.c",
+  "\t\tif (*idx >= json_object_array_length(obj))\n\t\t{\n\t\t\terrno = ENOENT;\n\t\t\treturn -1;\n\t\t}\n", "", needle="range")
+M("c12-benign-digit-test", "C12", "json_pointer.c",
+  "\tif (path[0] == '0')\n\t{", "\tif (!(path[0] != '0'))\n\t{", expect="silent")
+
 
 def sh(cmd, **kw):
     return subprocess.run(cmd, shell=isinstance(cmd, str), stdout=subprocess.PIPE, stderr=subprocess.STDOUT, text=True, **kw)
